@@ -124,7 +124,9 @@ def apply(F, S):
     # RW: MFI (totals non-negative is the property's own conditioning premise)
     for fn in F.fns_of("MoneyFlowIndex", "next", trait="Next"):
         r = symex.evaluate(F, fn, canon=True)
-        posts = {k: v for k, v in r["heap"].items() if k.startswith("self.total")}
+        # the flow totals: f64 scalar state whose update reads its own previous value (identified by shape, not by name)
+        posts = {k: v for k, v in r["heap"].items() if k.count(".") == 1 and invariants.path_type(F, "MoneyFlowIndex", k) == "f64"
+                 and any(x == ("pre", k) for x in subterms(v))}
         bad = None
         for conds, leaf in leaves(r["ret"]):
             if is_const(leaf):
